@@ -1208,7 +1208,8 @@ class LineCoverageInstrumentation(transformer.LineCoverageInstrumentationAdapter
         Returns:
             True if the line should be instrumented, False otherwise.
         """
-        return instr.lineno != lineno
+        # Instructions without a location do not belong to any line of the source code.
+        return isinstance(instr.lineno, int) and instr.lineno != lineno
 
     def visit_node(  # noqa: D102
         self,
